@@ -891,6 +891,10 @@ class SymCtx:
         self.paths = []
         self.samples = []
         self.t0 = time.time()
+        # the per-configuration budget is counted in CPU seconds of this worker (the in-process
+        # solver included), so that a loaded machine does not turn a finished exploration into an
+        # unfinished one; the driver's wall-clock kill (3x + 90 s) is the backstop
+        self.cpu0 = time.process_time()
         self.next_model = None
         self._empty_model = None
         self.export_every = 0  # cross-solver re-check: export every k-th discharged obligation
@@ -1038,7 +1042,7 @@ class SymCtx:
                 return e.choice
         if self.depth != len(self.stack):
             raise HarnessError("decision stack out of step with execution")
-        if time.time() - self.t0 > self.wall_s:
+        if time.process_time() - self.cpu0 > self.wall_s:
             raise PathAbort("wall budget")
         side = self._model_side(term)
         if side is None:
@@ -1650,7 +1654,7 @@ def explore(fn, config, ctx: SymCtx):
     exhaustive = True
     try:
         while True:
-            if ctx.n_paths >= ctx.max_paths or time.time() - ctx.t0 > ctx.wall_s:
+            if ctx.n_paths >= ctx.max_paths or time.process_time() - ctx.cpu0 > ctx.wall_s:
                 exhaustive = False
                 ctx.aborted.append({"reason": "path/wall budget exhausted"})
                 break
